@@ -31,6 +31,18 @@ static void need_keys(const V &a) {
         TGswParams *gp = new_TGswParams((int) a[3], (int) a[4], tp);
         cur.params = new TFheGateBootstrappingParameterSet((int) a[5], (int) a[6], lp, gp);
     }
+    if (a[0] == -2) {
+        // lambda = -2: as the custom sets, the key set assembled through the lower-level API with a TERNARY ring key (coefficients -1, 0, 1): blind
+        // rotation, extraction and key switch are linear in the ring key, nothing in them needs it to be binary (the LWE key stays binary)
+        const TFheGateBootstrappingParameterSet *P = cur.params;
+        LweKey *lk = new_LweKey(P->in_out_params); lweKeyGen(lk);
+        TGswKey *gk = new_TGswKey(P->tgsw_params); tGswKeyGen(gk);
+        for (int i = 0; i < P->tgsw_params->tlwe_params->k; i++) for (int j = 1; j < 1024; j += 2) if (gk->tlwe_key.key[i].coefs[j]) gk->tlwe_key.key[i].coefs[j] = -1;
+        LweBootstrappingKey *bk = new_LweBootstrappingKey(P->ks_t, P->ks_basebit, P->in_out_params, P->tgsw_params);
+        tfhe_createLweBootstrappingKey(bk, lk, gk);
+        LweBootstrappingKeyFFT *bkFFT = new_LweBootstrappingKeyFFT(bk);
+        cur.sk = new TFheGateBootstrappingSecretKeySet(P, bk, bkFFT, lk, gk);
+    } else
     cur.sk = new_random_gate_bootstrapping_secret_keyset(cur.params);
     cur.xkey = new_LweKey(&cur.params->tgsw_params->tlwe_params->extracted_lweparams);
     tLweExtractKey(cur.xkey, &cur.sk->tgsw_key->tlwe_key);
